@@ -1,4 +1,6 @@
 import TextxVerif.ProcLocate
+import TextxVerif.Proofs.ProcRaise
+import TextxVerif.Proofs.ProcMatch
 /-!
 # C33 — errors raised by processors carry the location of the processed text
 
@@ -85,11 +87,308 @@ theorem C33_pinned_nchar_false :
 (wrapped foreign exception on a model object) -/
 example : outcomePinned .obj ⟨none, 3, 4, 18⟩ true .other = .textx ⟨none, some 3, some 4, some 18⟩ := by decide
 
+/-! ## D13: the site tied to text offsets (`siteOf`) and to the walk (`walkE`)
+
+`Site` is no longer only data handed in by the harness: `siteOf` computes it the
+way `get_location` does — `pos_to_linecol` (Arpeggio, mirrored by
+`LinkLoc.posToLineCol`) of `_tx_position` in the text of the object's model,
+`_tx_position_end - _tx_position`, the model's file — and `walkE` determines *which*
+object that is: the one the first raising processor call of the walk is made on. -/
+
+/-- the located error the property asks for, in terms of the text: file of the
+model, line and column (by reading the text up to the offset, `LinkLoc.lineColSpec`)
+of the offset where the processed object or match starts, and — for object
+processors — the length of the processed text -/
+def expectedText (k : PKind) (file : Option Nat) (text : List Char) (pos posEnd : Nat) : ErrLoc :=
+  ⟨file, some (LinkLoc.lineColSpec text pos).1, some (LinkLoc.lineColSpec text pos).2,
+   match k with | .mtch => none | .obj => some (posEnd - pos)⟩
+
+/-- **Site from text.** What `get_location` computes for an object that starts at
+offset `pos` of `text` and ends at `posEnd` is the line / column obtained by
+reading the text up to `pos`, and the length `posEnd - pos`. -/
+theorem C33_site_text (file : Option Nat) (text : List Char) (pos posEnd : Nat) (h : pos ≤ text.length) :
+    siteOf file text pos posEnd =
+      ⟨file, (LinkLoc.lineColSpec text pos).1, (LinkLoc.lineColSpec text pos).2, posEnd - pos⟩ :=
+  siteOf_spec file text pos posEnd h
+
+/-- **Fill, in terms of the text.** An unlocated `TextXError` raised by a processor
+on the text `[pos, posEnd)` of `text` leaves with the file, the line and column
+where that text starts and (object processors) `nchar = posEnd - pos`. -/
+theorem C33_fill_text (k : PKind) (file : Option Nat) (text : List Char) (pos posEnd : Nat) (wrapped : Bool)
+    (h : pos ≤ text.length) :
+    outcome k (siteOf file text pos posEnd) wrapped (.textx ErrLoc.empty) =
+      .textx (expectedText k file text pos posEnd) := by
+  rw [C33_fill, siteOf_spec file text pos posEnd h]
+  cases k <;> rfl
+
+/-- **Wrap, in terms of the text.** -/
+theorem C33_wrap_text (k : PKind) (file : Option Nat) (text : List Char) (pos posEnd : Nat)
+    (h : pos ≤ text.length) :
+    outcome k (siteOf file text pos posEnd) true .other = .textx (expectedText k file text pos posEnd) := by
+  rw [C33_wrap, siteOf_spec file text pos posEnd h]
+  cases k <;> rfl
+
+/-- **Keep supplied, in terms of the text.** -/
+theorem C33_keep_supplied_text (k : PKind) (file : Option Nat) (text : List Char) (pos posEnd : Nat)
+    (wrapped : Bool) (l : ErrLoc) (h : pos ≤ text.length) :
+    ∃ l', outcome k (siteOf file text pos posEnd) wrapped (.textx l) = .textx l' ∧
+      l'.filename = orElse l.filename file ∧
+      l'.line = orElse l.line (some (LinkLoc.lineColSpec text pos).1) ∧
+      l'.col = orElse l.col (some (LinkLoc.lineColSpec text pos).2) ∧
+      l'.nchar = orElse l.nchar (expectedText k file text pos posEnd).nchar := by
+  obtain ⟨l', h1, hf, hl, hc, hn⟩ := C33_keep_supplied k (siteOf file text pos posEnd) wrapped l
+  rw [siteOf_spec file text pos posEnd h] at hf hl hc hn
+  refine ⟨l', h1, hf, hl, hc, ?_⟩
+  rw [hn]; cases k <;> rfl
+
+/-- **The location identifies the start.** Line and column of the error are those of
+no other offset of the text: if they are the line / column of offset `q`, then `q`
+is where the processed text starts. -/
+theorem C33_start_identified (file : Option Nat) (text : List Char) (pos posEnd q : Nat)
+    (h : pos ≤ text.length) (hq : q ≤ text.length)
+    (hl : (siteOf file text pos posEnd).line = (LinkLoc.lineColSpec text q).1)
+    (hc : (siteOf file text pos posEnd).col = (LinkLoc.lineColSpec text q).2) : pos = q := by
+  rw [siteOf_spec file text pos posEnd h] at hl hc
+  exact LinkLoc.lineColSpec_injective text pos q h hq (Prod.ext hl hc)
+
+/-- **The walk stops at the first raising call.** When a processor raises, the walk
+made exactly the calls of the exception-free walk up to that call: the log of the
+exception-free walk is `f.log ++ f.call :: post`, no call in `f.log` raises, and
+`f.call` does (so every C13 statement about log entries — e.g. `C13_snapshot` —
+applies to the failing call). -/
+theorem C33_walk_cut (M : MM) (S : Script) (R : Raises) (v : Val) (gm : Nat) (f : Fail)
+    (hf : walkE M S R v gm = .error f) :
+    ∃ post, (walk M S v gm).log = f.log ++ f.call :: post ∧
+      (∀ e ∈ f.log, R e.rule e.id = false) ∧ R f.call.rule f.call.id = true :=
+  cut_some R _ f (walkE_error M S R v gm f hf)
+
+/-- **Which call fails, from the model alone.** On a well-formed model the failing
+call is the first raising one in the post-order sequence of entitled calls
+(`C13_log_spec`); all entitled calls before it were made; and it is made on an
+object of the model. -/
+theorem C33_walk_first_raise (M : MM) (S : Script) (R : Raises) (v : Val) (gm : Nat) (h : wf M v gm = true)
+    (f : Fail) (hf : walkE M S R v gm = .error f) :
+    ∃ post, (occ v gm).flatMap (calls M) = f.log.map Entry.key ++ f.call.key :: post ∧
+      (∀ k ∈ f.log.map Entry.key, R k.1 k.2 = false) ∧ R f.call.key.1 f.call.key.2 = true ∧
+      f.call.id ∈ oids v := by
+  obtain ⟨post, h1, h2, h3⟩ := C33_walk_cut M S R v gm f hf
+  refine ⟨post.map Entry.key, ?_, ?_, h3, ?_⟩
+  · rw [← walk_log M S v gm h, h1]; simp
+  · intro k hk
+    obtain ⟨e, he, rfl⟩ := List.mem_map.1 hk
+    exact h2 e he
+  · exact walk_ids M S v gm f.call (by rw [h1]; simp)
+
+/-- the failing call does not depend on what the other processors return -/
+theorem C33_walk_first_raise_script_indep (M : MM) (S S' : Script) (R : Raises) (v : Val) (gm : Nat)
+    (h : wf M v gm = true) (f f' : Fail) (hf : walkE M S R v gm = .error f) (hf' : walkE M S' R v gm = .error f') :
+    f.call.key = f'.call.key ∧ f.log.map Entry.key = f'.log.map Entry.key := by
+  obtain ⟨p, h1, h2, h3, _⟩ := C33_walk_first_raise M S R v gm h f hf
+  obtain ⟨p', h1', h2', h3', _⟩ := C33_walk_first_raise M S' R v gm h f' hf'
+  rw [h1] at h1'
+  have := first_true_unique (fun k : Nat × Nat => R k.1 k.2) _ _ _ _ _ _ h2 h2' h3 h3' h1'
+  exact ⟨this.1, this.2⟩
+
+/-- **Loading fails iff an entitled call raises.** -/
+theorem C33_walk_fails_iff (M : MM) (S : Script) (R : Raises) (v : Val) (gm : Nat) (h : wf M v gm = true) :
+    (∃ f, walkE M S R v gm = .error f) ↔ ∃ k ∈ (occ v gm).flatMap (calls M), R k.1 k.2 = true := by
+  constructor
+  · rintro ⟨f, hf⟩
+    obtain ⟨post, h1, _, h3, _⟩ := C33_walk_first_raise M S R v gm h f hf
+    exact ⟨f.call.key, by rw [h1]; simp, h3⟩
+  · rintro ⟨k, hk, hr⟩
+    rw [← walk_log M S v gm h] at hk
+    obtain ⟨e, he, rfl⟩ := List.mem_map.1 hk
+    rw [walkE_eq]
+    unfold liftRes
+    cases hc : cut R (walk M S v gm).log with
+    | some f => exact ⟨f, rfl⟩
+    | none =>
+      have := (cut_none_iff R _).1 hc e he
+      simp only [Entry.key] at hr
+      rw [this] at hr
+      exact absurd hr (by simp)
+
+/-- no entitled call raises: the walk is the exception-free walk -/
+theorem C33_walk_no_raise (M : MM) (S : Script) (R : Raises) (v : Val) (gm : Nat)
+    (hR : ∀ e ∈ (walk M S v gm).log, R e.rule e.id = false) :
+    walkE M S R v gm = .ok (walk M S v gm) := by
+  rw [walkE_eq]
+  unfold liftRes
+  rw [(cut_none_iff R _).2 hR]
+
+/-- **The error of a failing walk, in terms of the text.** If the first raising call
+raises an unlocated `TextXError`, loading fails with a `TextXError` carrying the
+model's file, the line and column where the text of *the object that call was made
+on* starts, and `nchar` = the length of that text. -/
+theorem C33_walk_fill_text (M : MM) (S : Script) (R : Raises) (src : Src) (wrapped : Nat → Bool)
+    (raisedOf : Nat → Nat → Raised) (v : Val) (gm : Nat) (f : Fail) (hf : walkE M S R v gm = .error f)
+    (hspan : (src.span f.call.id).1 ≤ src.text.length)
+    (hr : raisedOf f.call.rule f.call.id = .textx ErrLoc.empty) :
+    walkErr M S R src wrapped raisedOf v gm =
+      some (.textx (expectedText .obj src.file src.text (src.span f.call.id).1 (src.span f.call.id).2)) := by
+  unfold walkErr procError
+  rw [hf]
+  simp only [hr]
+  rw [C33_fill_text .obj _ _ _ _ _ hspan]
+
+/-- …and the same for any other exception raised through `textxerror_wrap` -/
+theorem C33_walk_wrap_text (M : MM) (S : Script) (R : Raises) (src : Src) (wrapped : Nat → Bool)
+    (raisedOf : Nat → Nat → Raised) (v : Val) (gm : Nat) (f : Fail) (hf : walkE M S R v gm = .error f)
+    (hspan : (src.span f.call.id).1 ≤ src.text.length)
+    (hw : wrapped f.call.rule = true) (hr : raisedOf f.call.rule f.call.id = .other) :
+    walkErr M S R src wrapped raisedOf v gm =
+      some (.textx (expectedText .obj src.file src.text (src.span f.call.id).1 (src.span f.call.id).2)) := by
+  unfold walkErr procError
+  rw [hf]
+  simp only [hr, hw]
+  rw [C33_wrap_text .obj _ _ _ _ hspan]
+
+/-- a walk that fails under the property's hypothesis always fails with a located
+`TextXError`; a walk in which nothing raises produces no error -/
+theorem C33_walk_located (M : MM) (S : Script) (R : Raises) (src : Src) (wrapped : Nat → Bool)
+    (raisedOf : Nat → Nat → Raised) (v : Val) (gm : Nat) (f : Fail) (hf : walkE M S R v gm = .error f)
+    (h : wrapped f.call.rule = true ∨ raisedOf f.call.rule f.call.id ≠ .other) :
+    ∃ l', walkErr M S R src wrapped raisedOf v gm = some (.textx l') ∧ l'.line ≠ none ∧ l'.col ≠ none ∧
+      l'.nchar ≠ none := by
+  unfold walkErr procError
+  rw [hf]
+  obtain ⟨l', h1, h2, h3, _, h5⟩ := C33_located .obj
+    (siteOf src.file src.text (src.span f.call.id).1 (src.span f.call.id).2)
+    (wrapped f.call.rule) (raisedOf f.call.rule f.call.id) h
+  exact ⟨l', by simp only [h1], h2, h3, h5 (by decide)⟩
+
+/-- **Several models.** The load fails in the first model (in walk order) whose walk
+raises; all models before it were walked completely. -/
+theorem C33_load_first_model (S : Script) (R : Raises) (ms : List (MM × Val)) (k : Nat) (f : Fail)
+    (h : loadE S R ms = .error (k, f)) :
+    ∃ mv, ms[k]? = some mv ∧ walkE mv.1 S R mv.2 mv.2.cls = .error f ∧
+      ∀ j, j < k → ∃ mj r, ms[j]? = some mj ∧ walkE mj.1 S R mj.2 mj.2.cls = .ok r :=
+  loadE_error S R ms k f h
+
+/-- **The error of a failing load, in terms of the texts.** With several models
+(imported files) the error carries the file name of *the model that contains the
+object the failing call was made on*, line / column of that object's start in
+*that model's* text, and its length. -/
+theorem C33_load_fill_text (S : Script) (R : Raises) (srcs : List Src) (wrapped : Nat → Bool)
+    (raisedOf : Nat → Nat → Raised) (ms : List (MM × Val)) (k : Nat) (f : Fail) (src : Src)
+    (h : loadE S R ms = .error (k, f)) (hsrc : srcs[k]? = some src)
+    (hspan : (src.span f.call.id).1 ≤ src.text.length)
+    (hr : raisedOf f.call.rule f.call.id = .textx ErrLoc.empty ∨
+          (wrapped f.call.rule = true ∧ raisedOf f.call.rule f.call.id = .other)) :
+    loadErr S R srcs wrapped raisedOf ms =
+      some (.textx (expectedText .obj src.file src.text (src.span f.call.id).1 (src.span f.call.id).2)) ∧
+    ∃ mv, ms[k]? = some mv ∧ f.call.id ∈ oids mv.2 := by
+  constructor
+  · unfold loadErr procError
+    rw [h]
+    simp only [hsrc]
+    rcases hr with hr | ⟨hw, hr⟩
+    · rw [hr, C33_fill_text .obj _ _ _ _ _ hspan]
+    · rw [hr, hw, C33_wrap_text .obj _ _ _ _ hspan]
+  · obtain ⟨mv, hm, hw, _⟩ := loadE_error S R ms k f h
+    obtain ⟨post, h1, _, _⟩ := C33_walk_cut mv.1 S R mv.2 mv.2.cls f hw
+    exact ⟨mv, hm, walk_ids mv.1 S mv.2 mv.2.cls f.call (by rw [h1]; simp)⟩
+
+/-! ## D13: match processors inside composite match rules (`process_match`) -/
+
+/-- **Which match-processor call fails.** `process_match` makes its calls in
+post-order (sub-matches before the match they are part of, left to right) and
+stops at the first raising one: the calls of the tree are
+`f.log ++ f.call :: post`, nothing in `f.log` raises, `f.call` does. -/
+theorem C33_match_first_raise (R : Nat → Nat → Bool) (t : MNode) (f : MFail) (h : matchE R t = .error f) :
+    ∃ post, mcalls t = f.log ++ f.call :: post ∧ (∀ c ∈ f.log, R c.rule c.pos = false) ∧
+      R f.call.rule f.call.pos = true :=
+  cutP_some _ _ _ (matchE_error R t f h)
+
+/-- processing the tree fails iff some node's processor raises -/
+theorem C33_match_fails_iff (R : Nat → Nat → Bool) (t : MNode) :
+    (∃ f, matchE R t = .error f) ↔ ∃ c ∈ mcalls t, R c.rule c.pos = true := by
+  constructor
+  · rintro ⟨f, hf⟩
+    obtain ⟨post, h1, _, h3⟩ := C33_match_first_raise R t f hf
+    exact ⟨f.call, by rw [h1]; simp, h3⟩
+  · rintro ⟨c, hc, hr⟩
+    rw [matchE_lift]
+    unfold liftM
+    cases hcut : cutP (fun c => R c.rule c.pos) (mcalls t) with
+    | some r => exact ⟨_, rfl⟩
+    | none =>
+      have := (cutP_none_iff _ _).1 hcut c hc
+      rw [this] at hr
+      exact absurd hr (by simp)
+
+/-- **Located at the sub-match, not at the outermost match.** When the processor of a
+node of a (composite) match raises an unlocated `TextXError` — or any exception
+through `textxerror_wrap` — loading fails with a `TextXError` carrying the file and
+the line / column where *that node's* text starts (the counter-statement to seeded
+change C33-1, which reported every part at the start of the outermost match). -/
+theorem C33_match_fill_text (file : Option Nat) (text : List Char) (R : Nat → Nat → Bool) (wrapped : Bool)
+    (raised : Raised) (t : MNode) (f : MFail) (h : matchE R t = .error f)
+    (hpos : f.call.pos ≤ text.length)
+    (hr : raised = .textx ErrLoc.empty ∨ (wrapped = true ∧ raised = .other)) :
+    matchErr file text R wrapped raised t =
+      some (.textx (expectedText .mtch file text f.call.pos f.call.pos)) := by
+  unfold matchErr
+  rw [h]
+  simp only
+  rcases hr with hr | ⟨hw, hr⟩
+  · rw [hr, C33_fill_text .mtch _ _ _ _ _ hpos]
+  · rw [hr, hw, C33_wrap_text .mtch _ _ _ _ hpos]
+
 /-! non-vacuity -/
 example : outcome .obj ⟨some 1, 3, 4, 18⟩ true .other = .textx ⟨some 1, some 3, some 4, some 18⟩ := by decide
 example : outcome .mtch ⟨none, 3, 16, 4⟩ false (.textx ⟨none, none, some 5, none⟩) =
     .textx ⟨none, some 3, some 5, none⟩ := by decide
 example : outcome .obj ⟨some 1, 1, 1, 48⟩ false (.textx ⟨some 9, some 77, none, some 2⟩) =
     .textx ⟨some 9, some 77, some 1, some 2⟩ := by decide
+
+/-! D13 non-vacuity: a text with two lines, the object `cd` at offset 3..5; the walk of
+`exV`-like model where `A`'s processor raises on object 11 after `Base`'s ran on 12 -/
+example : siteOf (some 1) "ab\ncd ef".toList 3 5 = ⟨some 1, 2, 1, 2⟩ := by decide
+example : (3 : Nat) ≤ "ab\ncd ef".toList.length := by decide
+example : outcome .obj (siteOf (some 1) "ab\ncd ef".toList 3 5) false (.textx ErrLoc.empty) =
+    .textx ⟨some 1, some 2, some 1, some 2⟩ := by decide
+
+def exRM : MM where
+  kind c := if c = 3 then .abstr else if c = 4 then .mtch else .common
+  hasProc c := c = 0 || c = 1 || c = 3
+
+/-- `Model(10): xs+=Base [A(11){n=B(12)}, B(13)]` -/
+def exRV : Val :=
+  .obj 10 0 (.cons ⟨0, true, true, 3⟩
+      (.list (.cons (.obj 11 1 (.cons ⟨0, true, false, 3⟩ (.obj 12 2 .nil) .nil))
+             (.cons (.obj 13 2 .nil) .nil))) .nil)
+
+example : wf exRM exRV 0 = true := by decide
+example : (match walkE exRM (fun _ _ => .none) (fun r i => r == 1 && i == 11) exRV 0 with
+    | .error f => some (f.log.map Entry.key, f.call.key)
+    | .ok _ => none) = some ([(3, 12)], (1, 11)) := by decide
+example : (match walkE exRM (fun _ _ => .none) (fun _ _ => false) exRV 0 with
+    | .error _ => none
+    | .ok r => some (r.log.map Entry.key)) = some [(3, 12), (1, 11), (3, 11), (3, 13), (0, 10)] := by decide
+example : walkErr exRM (fun _ _ => .none) (fun r i => r == 1 && i == 11)
+    ⟨some 1, "m a b\n b".toList, fun i => if i = 11 then (2, 5) else (0, 0)⟩ (fun _ => false)
+    (fun _ _ => .textx ErrLoc.empty) exRV 0 = some (.textx ⟨some 1, some 1, some 3, some 3⟩) := by decide
+example : (match loadE (fun _ _ => .none) (fun r i => r == 3 && i == 13) [(exRM, .obj 1 0 .nil), (exRM, exRV)] with
+    | .error kf => some (kf.1, kf.2.call.key)
+    | .ok _ => none) = some (1, (3, 13)) := by decide
+
+example : loadErr (fun _ _ => .none) (fun r i => r == 3 && i == 13)
+    [⟨some 1, "m".toList, fun _ => (0, 1)⟩, ⟨some 2, "m a b\n b".toList, fun i => if i = 13 then (7, 8) else (0, 0)⟩]
+    (fun _ => false) (fun _ _ => .textx ErrLoc.empty) [(exRM, .obj 1 0 .nil), (exRM, exRV)] =
+    some (.textx ⟨some 2, some 2, some 2, some 1⟩) := by decide
+
+/-! `Version: Major '.' Minor;` at offset 6 of "pkg a 12.34": Major at 6, '.' at 8, Minor at 9; the
+processor of `Minor` (rule 2) raises: located at column 10, not at the start of `Version` (column 7) -/
+def exVersion : MNode := .nonterm 0 6 (.cons (.term 1 6) (.cons (.term 9 8) (.cons (.term 2 9) .nil)))
+
+example : (match matchE (fun r _ => r == 2) exVersion with
+    | .error f => some (f.log, f.call)
+    | .ok _ => none) = some ([⟨1, 6⟩, ⟨9, 8⟩], ⟨2, 9⟩) := by decide
+example : matchErr none "pkg a 12.34".toList (fun r _ => r == 2) false (.textx ErrLoc.empty) exVersion =
+    some (.textx ⟨none, some 1, some 10, none⟩) := by decide
+example : matchErr none "pkg a 12.34".toList (fun _ _ => false) false (.textx ErrLoc.empty) exVersion = none := by
+  decide
 
 end Proc
